@@ -3,12 +3,13 @@ import SaModel.Lemmas.C12Struct
 import SaModel.Lemmas.C12Read
 import SaModel.Lemmas.C12Batch
 import SaModel.Lemmas.C12WF
-import SaModel.Props.C02
+import SaModel.Lemmas.C12TypedBulk
 import SaModel.Props.C13
 /-
 C12 — deserializing a slice equals slicing the deserialized values.
 Property theorems only (helpers: SaModel/Lemmas/C12*.lean).  `sliceView` (SaModel/Read/Slice.lean) models arrow's
-`slice` + marrow's view conversion; `Spec.decodeAt` are the Arrow reading rules; `readAny` is the reader model (C02).
+`slice` + marrow's view conversion; `Spec.decodeAt` are the Arrow reading rules; `readAny` / `readAs` are the reader
+model (C02): `deserialize_any` and the typed reads driven by a `Target`.
 
 The theorems hold for EVERY array (every constructor incl. FixedSizeList and sparse Union, any nesting).  Hypotheses:
 the window bounds, and `sliceable a` — the decidable well-formedness `slice` itself relies on: children that are
@@ -73,6 +74,20 @@ theorem sliceable_slice (a : Arr) (o l : Nat) (h : o + l ≤ lenOf a) (hs : slic
     sliceable (sliceView a o l) = true :=
   Lemmas.C12.sliceable_slice a o l h hs
 
+/-- `Spec.WF` (C03) is the validity of BUILT arrays: bit offset 0, bitmaps of exactly ⌈len/8⌉ bytes, first offset 0,
+last offset = child length.  A slice is a VIEW (bit offset `o`, offsets not rebased, buffers shared), so `Spec.WF` is
+not — and should not be — preserved by slicing; the view-level predicates that ARE preserved are `sliceable`
+(`sliceable_slice`), `new … = ok` (`new_slice`) and `physical` (`physical_slice`), together `view_hyps_slice` below:
+exactly the hypotheses of `decodeAt_slice` / `readAs_slice`, which `Spec.WF` implies as far as `sliceable` goes
+(`WF_sliceable`). -/
+theorem WF_not_slice_invariant :
+    let f : Field := .mk "c" .int32 true []
+    let a : Arr := .prim .int32 (some ⟨[0b01], 0⟩) [1, 2]
+    let g : Field := .mk "l" (.list (.mk "element" .int8 false [])) false []
+    let b : Arr := .list false none [0, 1, 2] ⟨"element", false, []⟩ (.prim .int8 none [5, 6])
+    WF f a = true ∧ 1 + 1 ≤ lenOf a ∧ WF f (sliceView a 1 1) = false ∧
+    WF g b = true ∧ 1 + 1 ≤ lenOf b ∧ WF g (sliceView b 1 1) = false := by decide
+
 /-- slices of slices read as the corresponding window of the original array -/
 theorem slice_slice (a : Arr) (o1 l1 o2 l2 i : Nat) (hi : i < l2) (h2 : o2 + l2 ≤ l1) (h1 : o1 + l1 ≤ lenOf a)
     (hs : sliceable a = true) :
@@ -90,17 +105,111 @@ theorem new_slice (a : Arr) (o l : Nat) (h : o + l ≤ lenOf a) (hs : sliceable 
     (hn : new Fixes.all a = .ok ()) : new Fixes.all (sliceView a o l) = .ok () :=
   Lemmas.C12.new_slice Fixes.all a o l h hs hn
 
-/-- hence (C02) the readers agree: `deserialize_any` of slot `i` of the slice = of slot `o + i` of the whole array.
-Besides the window and `sliceable`, the hypotheses are those of C02 `read_any_decode` ON THE WHOLE ARRAY ONLY (slot
-`o + i` has a defined Arrow reading, the reader can be built, lengths fit Rust's `usize`, strings are UTF-8); everything
-about the slice (`new`, `physical`, the type skeleton) is derived. -/
-theorem read_slice (a : Arr) (o l i : Nat) (lv : LVal) (hi : i < l) (h : o + l ≤ lenOf a)
-    (hs : sliceable a = true) (hd : decodeAt a (o + i) = .ok lv)
-    (hn : new Fixes.all a = .ok ()) (hp : physical a = true) (hu : utf8Ok lv = true) :
-    readAny Fixes.all (sliceView a o l) i = readAny Fixes.all a (o + i) := by
-  rw [SaModel.Props.C02.read_any_decode _ _ lv (by rw [decodeAt_slice a o l i hi h hs]; exact hd)
-      (new_slice a o l h hs hn) (physical_slice a o l h hs hp) hu,
-    SaModel.Props.C02.read_any_decode a (o + i) lv hd hn hp hu, toD_slice]
+/-- lengths stay representable (`physical`, C02: what Rust's `usize` guarantees and Lean's unbounded lists do not) -/
+theorem physical_slice (a : Arr) (o l : Nat) (h : o + l ≤ lenOf a) (hs : sliceable a = true)
+    (hp : physical a = true) : physical (sliceView a o l) = true :=
+  Lemmas.C12.physical_slice a o l h hs hp
+
+/-- the hypotheses of the reader theorems below are preserved by slicing (so they hold along chains of slices) -/
+theorem view_hyps_slice (a : Arr) (o l : Nat) (h : o + l ≤ lenOf a) (hs : sliceable a = true)
+    (hn : new Fixes.all a = .ok ()) (hp : physical a = true) :
+    sliceable (sliceView a o l) = true ∧ new Fixes.all (sliceView a o l) = .ok () ∧ physical (sliceView a o l) = true :=
+  ⟨sliceable_slice a o l h hs, new_slice a o l h hs hn, physical_slice a o l h hs hp⟩
+
+/-! ### the typed reads (`deserialize_bool`, `…_i32`, `…_str`, `…_option`, `…_seq`, `…_tuple`, `…_map`, `…_struct`,
+`…_enum`, …) and `deserialize_any`: EQUALITY OF OUTCOMES
+
+Proved directly by recursion over the target (`Lemmas/C12Typed*.lean`: what each accessor looks at), not through C02:
+the two reads agree whether they return a value, an `Err` or unwind — also where the slot has no defined Arrow reading,
+where the target does not fit the column, where a string is not UTF-8.  Hypotheses, all decidable and all about the
+WHOLE array: the window, `sliceable`, the reader could be built (`new`), lengths fit `usize` (`physical`). -/
+
+mutual
+theorem sliceP_all (fx : Fixes) : ∀ (t : Target), SliceP fx t
+  | .any => sliceP_any fx
+  | .ignored => sliceP_ignored fx
+  | .unit => sliceP_unit fx
+  | .unitStruct => sliceP_unitStruct fx
+  | .bool => sliceP_bool fx
+  | .int ty => sliceP_int fx ty
+  | .f32 => sliceP_f32 fx
+  | .f64 => sliceP_f64 fx
+  | .char => sliceP_char fx
+  | .string => sliceP_string fx
+  | .str => sliceP_str fx
+  | .bytes => sliceP_bytes fx
+  | .byteBuf => sliceP_byteBuf fx
+  | .option t => sliceP_option (sliceP_all fx t)
+  | .newtype t => sliceP_newtype (sliceP_all fx t)
+  | .seq t => sliceP_seq (sliceP_all fx t)
+  | .tuple ts => sliceP_tuple (sliceP_targets fx ts)
+  | .tupleStruct ts => sliceP_tupleStruct (sliceP_targets fx ts)
+  | .map _ v => sliceP_map (sliceP_all fx v)
+  | .struct tfs => sliceP_struct (sliceP_fields fx tfs)
+  | .enum byIndex vs => sliceP_enum fx byIndex vs
+theorem sliceP_targets (fx : Fixes) : ∀ (ts : Targets), AllT (SliceP fx) ts
+  | .nil => by unfold AllT; trivial
+  | .cons t r => by unfold AllT; exact ⟨sliceP_all fx t, sliceP_targets fx r⟩
+theorem sliceP_fields (fx : Fixes) : ∀ (tfs : TFields), AllF (SliceP fx) tfs
+  | .nil => by unfold AllF; trivial
+  | .cons _ t r => by unfold AllF; exact ⟨sliceP_all fx t, sliceP_fields fx r⟩
+end
+
+/-- `C12_slice` for the typed reads: for EVERY target `t` (all 21 constructors, nested to any depth), reading `t` at
+slot `i` of the slice has the same outcome as reading `t` at slot `o + i` of the whole array — the same value, the
+same `Err`, the same unwind.  No hypothesis on the slot (it need not decode), on the target (it need not fit the
+column) or on the strings (they need not be UTF-8). -/
+theorem readAs_slice (t : Target) (a : Arr) (o l i : Nat) (hi : i < l) (h : o + l ≤ lenOf a)
+    (hs : sliceable a = true) (hn : new Fixes.all a = .ok ()) (hp : physical a = true) :
+    readAs Fixes.all t (sliceView a o l) i = readAs Fixes.all t a (o + i) :=
+  sliceP_all Fixes.all t a o l i hi ⟨h, hs, hn, hp⟩
+
+/-- the same for any combination of the `fix:` commits, in particular for the pinned tree (`Fixes.pinned`), where
+reads can unwind: slicing does not move a panic either -/
+theorem readAs_slice_fx (fx : Fixes) (t : Target) (a : Arr) (o l i : Nat) (hi : i < l) (h : o + l ≤ lenOf a)
+    (hs : sliceable a = true) (hn : new fx a = .ok ()) (hp : physical a = true) :
+    readAs fx t (sliceView a o l) i = readAs fx t a (o + i) :=
+  sliceP_all fx t a o l i hi ⟨h, hs, hn, hp⟩
+
+/-- `deserialize_any` of slot `i` of the slice = of slot `o + i` of the whole array, as outcomes (the former form of
+this theorem went through C02 `read_any_decode` and needed the slot to decode and its strings to be UTF-8) -/
+theorem read_slice (a : Arr) (o l i : Nat) (hi : i < l) (h : o + l ≤ lenOf a)
+    (hs : sliceable a = true) (hn : new Fixes.all a = .ok ()) (hp : physical a = true) :
+    readAny Fixes.all (sliceView a o l) i = readAny Fixes.all a (o + i) :=
+  readAny_slice Fixes.all a o l i hi ⟨h, hs, hn, hp⟩
+
+/-- slices of slices: the hypotheses need only hold of the original array -/
+theorem readAs_slice_slice (t : Target) (a : Arr) (o1 l1 o2 l2 i : Nat) (hi : i < l2) (h2 : o2 + l2 ≤ l1)
+    (h1 : o1 + l1 ≤ lenOf a) (hs : sliceable a = true) (hn : new Fixes.all a = .ok ()) (hp : physical a = true) :
+    readAs Fixes.all t (sliceView (sliceView a o1 l1) o2 l2) i = readAs Fixes.all t a (o1 + o2 + i) := by
+  rw [sliceView_sliceView a o1 l1 o2 l2 h2, readAs_slice t a (o1 + o2) l2 i hi (by omega) hs hn hp]
+
+/-- the whole-slice read (`SeqAccess` loop over all `l` rows of the slice) is the loop over rows `o … o+l-1` of the
+whole array; `readRange f s n` is `mapM f` over `s, …, s+n-1` (`readRange_eq_mapM`) -/
+theorem readRange_slice (t : Target) (a : Arr) (o l : Nat) (h : o + l ≤ lenOf a)
+    (hs : sliceable a = true) (hn : new Fixes.all a = .ok ()) (hp : physical a = true) :
+    readRange (readAs Fixes.all t (sliceView a o l)) 0 l = readRange (readAs Fixes.all t a) o l := by
+  apply readRange_congr
+  intro j hj
+  rw [Nat.zero_add]
+  exact readAs_slice t a o l j hj h hs hn hp
+
+/-- `new` of the whole array cannot be dropped: FixedSizeBinary(2) over 3 bytes (invalid Arrow; lenOf = 1).
+`FixedSizeBinaryDeserializer::new` refuses the array ("not evenly divisible") but accepts its slice (0, 1), whose
+data is the 2-byte window. -/
+theorem new_needed :
+    let a : Arr := .fixedSizeBinary 2 none [1, 2, 3]
+    0 + 1 ≤ lenOf a ∧ sliceable a = true ∧ physical a = true ∧ new Fixes.all a ≠ .ok () ∧
+    readAs Fixes.all .byteBuf (sliceView a 0 1) 0 ≠ readAs Fixes.all .byteBuf a (0 + 0) := by decide
+
+/-- `physical` cannot be dropped either: a FixedSizeList(2) of 2^63 rows over a Null child of 2^64 slots (no Rust
+`usize` holds that length).  Row 2^63 - 1 of the whole array fails the checked `(idx + 1) * n`; the same row is row 0
+of the slice (2^63 - 1, 1), where the multiplication is `1 * 2`. -/
+theorem physical_needed :
+    let a : Arr := .fixedSizeList 9223372036854775808 none 2 ⟨"element", false, []⟩ (.null 18446744073709551616)
+    9223372036854775807 + 1 ≤ lenOf a ∧ sliceable a = true ∧ new Fixes.all a = .ok () ∧ physical a = false ∧
+    readAny Fixes.all (sliceView a 9223372036854775807 1) 0 ≠ readAny Fixes.all a (9223372036854775807 + 0) := by
+  decide
 
 /-- sparse unions: the Arrow-level statement (`decodeAt_slice`) covers them, but the crate never reads one — building
 the reader fails (`enum_deserializer.rs`: "Only dense unions are supported"), before and after slicing alike -/
@@ -120,30 +229,78 @@ theorem batch_decodeAt_slice (cols : ArrFields) (len o l i : Nat) (hi : i < l) (
     decodeAt (batch l (sliceFields cols o l)) i = decodeAt (batch len cols) (o + i) :=
   decodeAt_slice (batch len cols) o l i hi h hs
 
-/-- the reader form.  If `Deserializer::new` accepted the whole batch with `len` records (`hctor`) and the columns are
-well-formed, then for every window `o + l ≤ len`: the constructor accepts the sliced batch and reports `l` records,
-`get i` (i < l) on the slice and `get (o + i)` on the whole batch both hand out a record, and reading them
-(`deserialize_any`) gives the same result.  `hd … hu`: the C02 hypotheses on the WHOLE batch only. -/
-theorem batch_read_slice (cols : ArrFields) (len o l i : Nat) (lv : LVal)
-    (hctor : Access.new true cols.length (colLens cols) = .ok len)
-    (hi : i < l) (h : o + l ≤ len) (hs : sliceableCols cols = true)
-    (hd : decodeAt (batch len cols) (o + i) = .ok lv)
-    (hn : newFields Fixes.all cols = .ok ()) (hp : physicalFields cols = true) (hu : utf8Ok lv = true) :
+/-- what `Deserializer::new` does with the sliced batch: if it accepted the whole batch with `len` records and the
+columns are well-formed, then for every window `o + l ≤ len` it accepts the sliced batch and reports `l` records, and
+the root reader of the whole batch meets the hypotheses of `readAs_slice` -/
+theorem batch_ctor_slice (cols : ArrFields) (len o l : Nat)
+    (hctor : Access.new true cols.length (colLens cols) = .ok len) (h : o + l ≤ len)
+    (hs : sliceableCols cols = true) (hn : newFields Fixes.all cols = .ok ()) :
     Access.new true (sliceFields cols o l).length (colLens (sliceFields cols o l)) = .ok l ∧
-    Access.getIdx l i = some i ∧ Access.getIdx len (o + i) = some (o + i) ∧
-    readAny Fixes.all (batch l (sliceFields cols o l)) i = readAny Fixes.all (batch len cols) (o + i) := by
+    sliceable (batch len cols) = true := by
   obtain ⟨hlen, hall, hnil⟩ := (SaModel.Props.C13.ctor_checks _ _ _).mp hctor
   have hsf : sliceableFields cols len = true := sliceableFields_of_cols Fixes.all cols len hall hn hs
-  refine ⟨?_, ?_, ?_, ?_⟩
-  · rw [SaModel.Props.C13.ctor_checks]
-    refine ⟨by rw [colLens_length], colLens_slice Fixes.all cols len o l h hsf hn, ?_⟩
-    intro hnil'
-    cases cols with
-    | nil => have := hnil rfl; omega
-    | cons _ _ _ => simp [sliceFields, colLens] at hnil'
+  refine ⟨?_, hsf⟩
+  rw [SaModel.Props.C13.ctor_checks]
+  refine ⟨by rw [colLens_length], colLens_slice Fixes.all cols len o l h hsf hn, ?_⟩
+  intro hnil'
+  cases cols with
+  | nil => have := hnil rfl; omega
+  | cons _ _ _ => simp [sliceFields, colLens] at hnil'
+
+/-- the reader form, one record.  If `Deserializer::new` accepted the whole batch with `len` records (`hctor`) and the
+columns are well-formed, then for every window `o + l ≤ len`: the constructor accepts the sliced batch and reports `l`
+records, `get i` (i < l) on the slice and `get (o + i)` on the whole batch both hand out a record, and reading them
+with ANY target `t` (`T::deserialize(item)`; `t = .any` is `deserialize_any`) has the same outcome. -/
+theorem batch_read_slice (t : Target) (cols : ArrFields) (len o l i : Nat)
+    (hctor : Access.new true cols.length (colLens cols) = .ok len)
+    (hi : i < l) (h : o + l ≤ len) (hs : sliceableCols cols = true)
+    (hn : newFields Fixes.all cols = .ok ()) (hp : physicalFields cols = true) :
+    Access.new true (sliceFields cols o l).length (colLens (sliceFields cols o l)) = .ok l ∧
+    Access.getIdx l i = some i ∧ Access.getIdx len (o + i) = some (o + i) ∧
+    readAs Fixes.all t (batch l (sliceFields cols o l)) i = readAs Fixes.all t (batch len cols) (o + i) := by
+  obtain ⟨hc, hsf⟩ := batch_ctor_slice cols len o l hctor h hs hn
+  refine ⟨hc, ?_, ?_, ?_⟩
   · rw [SaModel.Props.C13.get_eq]; simp only [hi, if_true]
   · rw [SaModel.Props.C13.get_eq]; simp only [show o + i < len by omega, if_true]
-  · exact read_slice (batch len cols) o l i lv hi h hsf hd hn hp hu
+  · exact readAs_slice t (batch len cols) o l i hi h hsf hn hp
+
+/-- the bulk form (`Vec<T>::deserialize(&deserializer)`, i.e. `from_record_batch` / `from_arrow`: `visit_seq` over
+`DeserializerIterator`, which hands out the indices `Access.bulk`, C13).  Under the hypotheses of `batch_read_slice`:
+the constructor accepts the sliced batch with `l` records, and reading ALL records of the sliced batch with target `t`
+is reading the records `[o, o + l)` of the whole batch — the same list of values or the same first failure.  In
+particular (second part) when the bulk read of the whole batch succeeds with `xs`, the bulk read of the sliced batch
+succeeds with the window `[o, o + l)` of `xs`: deserializing the slice = slicing the deserialized values. -/
+theorem batch_readAs_slice (t : Target) (cols : ArrFields) (len o l : Nat)
+    (hctor : Access.new true cols.length (colLens cols) = .ok len)
+    (h : o + l ≤ len) (hs : sliceableCols cols = true)
+    (hn : newFields Fixes.all cols = .ok ()) (hp : physicalFields cols = true) :
+    Access.new true (sliceFields cols o l).length (colLens (sliceFields cols o l)) = .ok l ∧
+    (Access.bulk l).mapM (readAs Fixes.all t (batch l (sliceFields cols o l)))
+      = (window (Access.bulk len) o l).mapM (readAs Fixes.all t (batch len cols)) ∧
+    (∀ xs, (Access.bulk len).mapM (readAs Fixes.all t (batch len cols)) = .ok xs →
+      (Access.bulk l).mapM (readAs Fixes.all t (batch l (sliceFields cols o l))) = .ok (window xs o l)) := by
+  obtain ⟨hc, hsf⟩ := batch_ctor_slice cols len o l hctor h hs hn
+  have key : (Access.bulk l).mapM (readAs Fixes.all t (batch l (sliceFields cols o l)))
+      = (window (Access.bulk len) o l).mapM (readAs Fixes.all t (batch len cols)) := by
+    rw [SaModel.Props.C13.bulk_eq_items, SaModel.Props.C13.bulk_eq_items, window_range len o l h,
+      List.range_eq_range']
+    apply mapM_range'_congr
+    intro j hj
+    rw [Nat.zero_add]
+    exact readAs_slice t (batch len cols) o l j hj h hsf hn hp
+  refine ⟨hc, key, ?_⟩
+  intro xs hxs
+  rw [key]
+  exact mapM_ok_take _ _ _ l (mapM_ok_drop _ _ _ o hxs)
+
+/-- the same in terms of the `SeqAccess` loop of the model -/
+theorem batch_readRange_slice (t : Target) (cols : ArrFields) (len o l : Nat)
+    (hctor : Access.new true cols.length (colLens cols) = .ok len)
+    (h : o + l ≤ len) (hs : sliceableCols cols = true)
+    (hn : newFields Fixes.all cols = .ok ()) (hp : physicalFields cols = true) :
+    readRange (readAs Fixes.all t (batch l (sliceFields cols o l))) 0 l
+      = readRange (readAs Fixes.all t (batch len cols)) o l :=
+  readRange_slice t (batch len cols) o l h (batch_ctor_slice cols len o l hctor h hs hn).2 hn hp
 
 /-- the one-column record reader the `slice` suite drives (`Reader.record`, `Deserializer::from_marrow(&[field], &[view])`)
 is the one-column batch: the record reader over the sliced column is the slice of the record reader over the column -/
@@ -185,7 +342,33 @@ example : WF (.mk "c" (.fixedSizeList (.mk "element" (.struct (.cons (.mk "x" .i
 /-- the reader on the same example: all hypotheses of `read_slice` hold for slot 1 + 2, and the read succeeds -/
 example : readAny Fixes.all (sliceView fslExample 1 3) 2 = readAny Fixes.all fslExample (1 + 2) ∧
     (readAny Fixes.all fslExample (1 + 2)).isOk = true :=
-  ⟨read_slice fslExample 1 3 2 _ (by decide) (by decide) (by decide) rfl (by decide) (by decide) (by decide), by decide⟩
+  ⟨read_slice fslExample 1 3 2 (by decide) (by decide) (by decide) (by decide) (by decide), by decide⟩
+
+/-- typed reads of the same example.  `fslTarget` = `Option<Vec<Option<(Option<i8>, Vec<bool>)>>>` (a tuple read over
+the struct column): every row reads successfully (row 2 of the array is null, the others are not, the values differ).
+`fslStrict` = `Vec<S>` with `struct S { x: i8, y: Vec<bool> }`: the read succeeds on row 0 and FAILS on row 1 (a null
+`x` inside) — and fails the same way on the slice: `readAs_slice` is an equality of outcomes. -/
+def fslTarget : Target :=
+  .option (.seq (.option (.tuple (.cons (.option (.int .i8)) (.cons (.seq .bool) .nil)))))
+
+def fslStrict : Target := .seq (.struct (.cons "x" (.int .i8) (.cons "y" (.seq .bool) .nil)))
+
+example : (∀ i, i < 3 → readAs Fixes.all fslTarget (sliceView fslExample 1 3) i = readAs Fixes.all fslTarget fslExample (1 + i)) ∧
+    ((List.range 5).map (readAs Fixes.all fslTarget fslExample)).all (·.isOk) = true ∧
+    readAs Fixes.all fslTarget fslExample 2 = .ok .none ∧
+    readAs Fixes.all fslTarget fslExample 1 ≠ readAs Fixes.all fslTarget fslExample 3 :=
+  ⟨fun i hi => readAs_slice fslTarget fslExample 1 3 i hi (by decide) (by decide) (by decide) (by decide),
+   by decide, by decide, by decide⟩
+
+example : readAs Fixes.all fslStrict (sliceView fslExample 1 3) 0 = readAs Fixes.all fslStrict fslExample (1 + 0) ∧
+    (readAs Fixes.all fslStrict fslExample (1 + 0)).isErr = true ∧
+    (readAs Fixes.all fslStrict fslExample 0).isOk = true :=
+  ⟨readAs_slice fslStrict fslExample 1 3 0 (by decide) (by decide) (by decide) (by decide) (by decide), by decide, by decide⟩
+
+/-- the whole-slice loop on the same example -/
+example : readRange (readAs Fixes.all fslTarget (sliceView fslExample 1 3)) 0 3
+    = readRange (readAs Fixes.all fslTarget fslExample) 1 3 :=
+  readRange_slice fslTarget fslExample 1 3 (by decide) (by decide) (by decide) (by decide)
 
 /-- a sparse union {0: int32, 1: utf8} of 4 rows, window (1, 2) -/
 def sparseExample : Arr :=
@@ -205,9 +388,26 @@ def batchExample : ArrFields :=
 
 example : (Access.new true (sliceFields batchExample 1 2).length (colLens (sliceFields batchExample 1 2)) = .ok 2 ∧
     Access.getIdx 2 1 = some 1 ∧ Access.getIdx 3 (1 + 1) = some (1 + 1) ∧
-    readAny Fixes.all (batch 2 (sliceFields batchExample 1 2)) 1 = readAny Fixes.all (batch 3 batchExample) (1 + 1)) ∧
-    (readAny Fixes.all (batch 3 batchExample) (1 + 1)).isOk = true :=
-  ⟨batch_read_slice batchExample 3 1 2 1 _ (by decide) (by decide) (by decide) (by decide) rfl (by decide) (by decide)
-    (by decide), by decide⟩
+    readAs Fixes.all .any (batch 2 (sliceFields batchExample 1 2)) 1 = readAs Fixes.all .any (batch 3 batchExample) (1 + 1)) ∧
+    (readAs Fixes.all .any (batch 3 batchExample) (1 + 1)).isOk = true :=
+  ⟨batch_read_slice .any batchExample 3 1 2 1 (by decide) (by decide) (by decide) (by decide) (by decide) (by decide),
+    by decide⟩
+
+/-- the bulk typed read of the same batch into `Vec<Rec>`, `struct Rec { s: Option<String>, p: (i16, i16) }`: the whole
+batch reads successfully (3 distinct records, one with `s = None`), so the sliced batch reads as the window of those
+records -/
+def batchTarget : Target :=
+  .struct (.cons "s" (.option .string) (.cons "p" (.seq (.int .i16)) .nil))
+
+/-- the same record as a tuple `(Option<String>, Vec<i16>)` (used to show that the records differ) -/
+def batchTuple : Target := .tuple (.cons (.option .string) (.cons (.seq (.int .i16)) .nil))
+
+example : ((Access.bulk 3).mapM (readAs Fixes.all batchTarget (batch 3 batchExample))).isOk = true ∧
+    (∀ xs, (Access.bulk 3).mapM (readAs Fixes.all batchTarget (batch 3 batchExample)) = .ok xs →
+      (Access.bulk 2).mapM (readAs Fixes.all batchTarget (batch 2 (sliceFields batchExample 1 2))) = .ok (window xs 1 2)) ∧
+    readAs Fixes.all batchTuple (batch 3 batchExample) 1 ≠ readAs Fixes.all batchTuple (batch 3 batchExample) 2 :=
+  ⟨by decide,
+   (batch_readAs_slice batchTarget batchExample 3 1 2 (by decide) (by decide) (by decide) (by decide) (by decide)).2.2,
+   by decide⟩
 
 end SaModel.Props.C12
